@@ -37,6 +37,9 @@ def generate(c, registry):
         return dict(function=tid(c), hash=h, status="out-of-subset", why=str(e), results=[], notes=eng.notes, seconds=time.time() - t0)
     except RecursionError:
         return dict(function=tid(c), hash=h, status="out-of-subset", why="recursion limit in the engine", results=[], notes=eng.notes, seconds=time.time() - t0)
+    except Exception as e:  # e.g. a contract clause that no longer type-checks against the changed code (z3 sort mismatch)
+        return dict(function=tid(c), hash=h, status="out-of-subset", engine_error=True, why=f"contract no longer type-checks against the function: {type(e).__name__}: {e}",
+                    results=[], notes=eng.notes, seconds=time.time() - t0)
     return dict(function=tid(c), hash=h, status="ok", eng=eng, notes=eng.notes, paths=eng.npaths, seconds=time.time() - t0)
 
 
@@ -144,6 +147,8 @@ def run_contracts(ctx, contracts, registry, workloads=(), concrete_env=None, mon
     for c, out in zip(todo, outs):
         c_target = tid(c)
         ctx.functions[c_target] = out.get("hash")
+        if out.get("engine_error") and out.get("hash") in {v.get("hash") for k, v in ledger.items() if k.startswith(c_target + ":")}:
+            ctx.mark_broken(f"{c_target}: VC generation fails on the function text the ledger was written for: {out['why']}")
         if out["status"] in ("missing", "out-of-subset"):
             ctx.notes.append(f"PROOF-LOST {c_target}: {out['why']} (bounded stand-in decides)")
             ctx.obligations.append(dict(id=f"{c_target}:{out['status']}", verdict="undecided", solver=None, seconds=0, function=c_target, note=out["why"], proof_lost=True))
